@@ -97,6 +97,22 @@ def _from_old(st, new: ty.SeqV, old: ty.SeqV, extra=None):
     st.assume(ty.FA([i], z3.Implies(z3.And(i >= 0, i < new.len), same), patterns=[z3.Select(new.arrs[0], i)]))
 
 
+def heapify(ex, st, h, node):
+    """heapq.heapify(list of (timestamp, event) pairs): SOME rearrangement of the same entries that satisfies the heap property (which one is not
+    specified - entries that compare equal may change places)"""
+    if not _is_heap_seq(h):
+        raise _U(f"heapify on {h!r}", node)
+    cnt_axioms(st, h)
+    new = _fresh_heap(h, h.len)
+    x = z3.Const(ty.fresh_name("px"), R)
+    st.assume(heap_pred(ex, st, new))
+    st.assume(ty.FA([x], CNT(new.arrs[1], new.len, x) == CNT(h.arrs[1], h.len, x), patterns=[CNT(new.arrs[1], new.len, x)]))
+    _from_old(st, new, h)
+    cnt_axioms(st, new)
+    heap_min_axiom(ex, st, new)
+    return new
+
+
 def heappush(ex, st, h, item, node):
     """value-semantic: returns [(new heap, None, st, None)]"""
     if not _is_heap_seq(h):
